@@ -315,6 +315,9 @@ func (p *Peer) DeriveKeys() error {
 		p.Master = p.Prof.PRF(p.PMS, "master secret", append(append([]byte{}, p.CR...), p.SR...), 48)
 	}
 	macLen, keyLen, ivLen := p.Prof.MacLen, 16, 16
+	if p.Prof.KeyLen != nil {
+		keyLen = p.Prof.KeyLen(p.Suite)
+	}
 	if p.Prof.GCM(p.Suite) {
 		macLen, ivLen = 0, 4
 	}
